@@ -18,7 +18,9 @@ ASSUME = ["TLC and the CommunityModules JSON reader are correct",
           "library's documented unlocked reads (harness/tsan.supp) end the execution with a record no specification accepts"]
 
 STRESS_CQ = [{"source": "cq_stress.cpp", "name": "cq_stress_mutex", "defines": ["W_MUTEX=0"]},
-             {"source": "cq_stress.cpp", "name": "cq_stress_spin", "defines": ["W_MUTEX=1"]}]
+             {"source": "cq_stress.cpp", "name": "cq_stress_spin", "defines": ["W_MUTEX=1"]},
+             # HeterEventQueue: its own copy of the queue logic, two prototypes interleaved in one queue
+             {"source": "cq_stress.cpp", "name": "cq_stress_heter_mutex", "defines": ["W_MUTEX=0", "W_HETER=1"], "lacks": ["tk", "pk", "pu"]}]
 
 CORPUS_D5 = {"module": "ConcQueueMC", "cfg": mc_cfg([1, 2], "SDqnWaiter", defects=["dqn_unlocked"]), "defect": "dqn_unlocked", "scenario": "don,nq,dof|w,pa"}
 CORPUS_PB = {"module": "ConcQueueMC", "cfg": mc_cfg([1, 2], "SPutBack", defects=["putback_end"]), "defect": "putback_end", "scenario": "nq,nq|pi,pa"}
@@ -33,7 +35,7 @@ def c06(tier, seed):
     models = [{"module": "ConcQueueMC", "tag": "2threads", "cfg": mc_cfg([1, 2], "Scen2")}]
     if not quick:
         models.append({"module": "ConcQueueMC", "tag": "3threads", "cfg": mc_cfg([1, 2, 3], "Scen3"), "heap": "16g"})
-    stress_sc = [{"scenario": s} for s in ["nq,nq|pa,pa", "nq,nq,nq|pi,pa", "nq,nq|tk|po,po", "nq,nq|cl|pa", "nq,nq,nq,nq|pu,pa", "nq|nq,tk|pa,pk"]]
+    stress_sc = [{"scenario": s} for s in ["nq,nq|pa,pa", "nq,nq,nq|pi,pa", "nq,nq|tk|po,po", "nq,nq|cl|pa", "nq,nq,nq,nq|pu,pa", "nq|nq,tk|pa,pk", "nq,nq,nq|po,pi|pa"]]
     return {"models": models, "runner": RUNNER_CQ, "trace_module": "TraceCQ", "scenarios": scen, "corpus": [CORPUS_PB],
             "stress_runners": STRESS_CQ, "stress_scenarios": stress_sc,
             "rule": "ConcQueue.tla model-checked over all interleavings of the scenario sets; on the real EventQueue each scenario (producers x consumers "
@@ -67,12 +69,14 @@ def c07(tier, seed):
 
 def c11(tier, seed):
     quick = tier == "quick"
-    sc = ["nq,pa|eq", "nq,po|eq,eq", "nq,nq,pa|eq", "nq,tk|eq", "nq,cl|eq", "nq,pa|wf", "nq,po,po|eq,eq", "nq,nq,po|eq"]
-    sc3 = ["nq|pa|eq", "nq,nq|po,po|eq,eq", "nq|tk|eq", "nq,pa|nq|eq"]
+    sc = ["nq,pa|eq", "nq,po|eq,eq", "nq,nq,pa|eq", "nq,tk|eq", "nq,cl|eq", "nq,pa|wf", "nq,po,po|eq,eq", "nq,nq,po|eq", "nq,po|wf", "nq,tk|wf"]
+    sc3 = ["nq|pa|eq", "nq,nq|po,po|eq,eq", "nq|tk|eq", "nq,pa|nq|eq", "nq|pa|wf"]
     scen = [{"scenario": s, "bound": 3} for s in sc] + [{"scenario": s, "bound": 2, "max": 6000 if quick else 150000} for s in sc3]
-    models = [{"module": "ConcQueueMC", "tag": "2threads", "cfg": mc_cfg([1, 2], "Scen2")}]
+    models = [{"module": "ConcQueueMC", "tag": "2threads", "cfg": mc_cfg([1, 2], "Scen2")},
+              {"module": "ConcQueueMC", "tag": "waitfor-2threads", "cfg": mc_cfg([1, 2], "WF2")}]
     if not quick:
         models.append({"module": "ConcQueueMC", "tag": "3threads", "cfg": mc_cfg([1, 2, 3], "Scen3"), "heap": "16g"})
+        models.append({"module": "ConcQueueMC", "tag": "waitfor-3threads", "cfg": mc_cfg([1, 2, 3], "WF3"), "heap": "16g"})
     stress_sc = [{"scenario": s} for s in ["nq,pa|eq,eq", "nq,nq,po,po|eq,eq", "nq|pa|eq", "nq,tk|eq"]]
     return {"models": models, "runner": RUNNER_CQ, "trace_module": "TraceCQ", "scenarios": scen, "corpus": [CORPUS_EO],
             "stress_runners": STRESS_CQ, "stress_scenarios": stress_sc,
@@ -91,7 +95,10 @@ RUNNERS_CC = [{"source": "cc_run.cpp", "name": "cc_run_list", "defines": ["W_OBJ
 STRESS_CC = [{"source": "cc_stress.cpp", "name": "cc_stress_list_mutex", "defines": ["W_OBJ=0", "W_MUTEX=0"]},
              {"source": "cc_stress.cpp", "name": "cc_stress_list_spin", "defines": ["W_OBJ=0", "W_MUTEX=1"]},
              {"source": "cc_stress.cpp", "name": "cc_stress_umap_mutex", "defines": ["W_OBJ=2", "W_MUTEX=0"]},
-             {"source": "cc_stress.cpp", "name": "cc_stress_map_spin", "defines": ["W_OBJ=1", "W_MUTEX=1"]}]
+             {"source": "cc_stress.cpp", "name": "cc_stress_map_spin", "defines": ["W_OBJ=1", "W_MUTEX=1"]},
+             # the shipped mutexes against the `mtx` abstraction of the interleaving models (TraceLock.tla)
+             {"source": "lock_stress.cpp", "name": "lock_stress_spin", "defines": ["W_MUTEX=1"], "trace_module": "TraceLock", "own_scenarios": True},
+             {"source": "lock_stress.cpp", "name": "lock_stress_mutex", "defines": ["W_MUTEX=0"], "trace_module": "TraceLock", "own_scenarios": True}]
 
 
 def cc_cfg(threads, scen, defects=(), initlen=2, maxnodes=6):
@@ -110,6 +117,10 @@ def c03(tier, seed):
     if not quick:
         models.append({"module": "ConcCLMC", "tag": "3threads-1call", "cfg": cc_cfg([1, 2, 3], "ScenSet1"), "heap": "16g"})
     stress_sc = [{"scenario": s, "every": 2} for s in ["2:i1|r1", "2:a,v|r1,p", "2:p,o1|r1,e", "2:i1,v|r1,a", "2:a,r10|v,e", "2:i1|r1|v", "2:a,f|p,e|r1,r2", "1:p,e|a,e|r1"]]
+    # lock-level stress (own scenario syntax threads:rounds); and list-level contention with several rounds per thread
+    stress_sc += [{"scenario": "4:300", "own": True, "count": 40 if quick else 400}, {"scenario": "8:100", "own": True, "count": 40 if quick else 400},
+                  {"scenario": "3:1000", "own": True, "count": 10 if quick else 100}]
+    stress_sc += [{"scenario": "0:a,a,r10,r11,a,r14|a,a,r20,r21,a,r24|a,e,p,o30,v|f,a,r40,e", "every": 2, "count": 100 if quick else 2000}]
     return {"models": models, "runners": RUNNERS_CC, "trace_module": "TraceCC", "scenarios": scen,
             "stress_runners": STRESS_CC, "stress_scenarios": stress_sc,
             "corpus": [],
